@@ -116,7 +116,8 @@ def _case(draw, stratum):
             other = (col + 1) % cols
             extra_row = [r for r in range(rows) if r not in rws]
             if k >= 2:
-                case["wells"][-1] = [case["wells"][-1][0], other]
+                j = draw(st.integers(0, k - 1))  # also a well in the middle of the row order
+                case["wells"][j] = [case["wells"][j][0], other]
             else:
                 case["wells"] = case["wells"] + [[rws[0], other]]
                 tn = [_tipnum(x) for x in case["tips"]]
@@ -255,6 +256,39 @@ def _wash(obs, case):
     obs.nontrivial = True
 
 
+def _follow_up(obs, case, spec, trough, rows, cols, desc):
+    """A rejected call must not influence the next, valid call on labware of the same dimensions."""
+    import robotools
+
+    lw2 = robotools.Trough("Lab", rows, cols, min_volume=0, max_volume=1e7, initial_volumes=1e5) if trough else robotools.Labware("Lab", rows, cols, min_volume=0, max_volume=1e7, initial_volumes=1e5)
+    wl2 = robotools.EvoWorklist(max_volume=950)
+    col = cols - 1
+    k = min(rows, 2)
+    wells = [wid(r, col) for r in range(k)]
+    vols = [5.0, 7.5][:k]
+    pre = lw2.volumes
+    try:
+        wl2.evo_aspirate(lw2, wells, (case["grid"] if isinstance(case["grid"], int) and 1 <= case["grid"] <= 67 else 10, 1), list(range(1, k + 1)), vols, "Water")
+    except Exception as e:  # noqa
+        obs.bad("C13/follow-up-rejected", f"after the rejected call [{desc}] a plain valid evo_aspirate on a fresh {rows}x{cols} labware raised {type(e).__name__}: {e}")
+        return
+    spec2 = dict(spec, pos=[case["grid"] if isinstance(case["grid"], int) and 1 <= case["grid"] <= 67 else 10, 1])
+    try:
+        rec = gwl.parse_record(wl2[-1])
+        deltas = gwl.decode_command(rec, gwl.Rack.from_spec(spec2))
+    except gwl.GwlError as e:
+        obs.bad("C13/follow-up-corrupted", f"after the rejected call [{desc}] the next valid command is {wl2[-1]!r}: {e}")
+        return
+    moved = {}
+    for well, _, v in deltas:
+        moved[well] = moved.get(well, 0) + float(v)
+    post = lw2.volumes
+    for idx in [(r, c) for r in range(pre.shape[0]) for c in range(pre.shape[1])]:
+        if abs((float(pre[idx]) - float(post[idx])) - moved.get(idx, 0.0)) > 0.011:
+            obs.bad("C13/follow-up-corrupted", f"after the rejected call [{desc}] the next valid command {wl2[-1]!r} disagrees with the tracking at {idx}")
+            return
+
+
 def check_case(case) -> Obs:
     import robotools
 
@@ -301,6 +335,7 @@ def check_case(case) -> Obs:
         obs.cls("rejected", "exc:" + type(exc).__name__)
         if new:
             obs.bad("C13/appended-on-reject", f"{desc} raised {type(exc).__name__} but appended {new}")
+        _follow_up(obs, case, spec, trough, rows, cols, desc)
         if stream == "core" and not undetermined_container:
             obs.bad("C13/valid-rejected", f"{desc} raised {type(exc).__name__}: {exc}")
         if stream == "order":
